@@ -68,6 +68,16 @@ class AliasCtx:
                 return None
             if isinstance(cur, ast.IfExp):
                 return self.rooted(fi, cur.body, depth - 1) or self.rooted(fi, cur.orelse, depth - 1)
+            if isinstance(cur, (ast.Tuple, ast.List)):
+                # an element of a literal collection of parts (``for x in (a.p, a.q): x.sort()``)
+                for el in cur.elts:
+                    r = self.rooted(fi, el, depth - 1)
+                    if r is not None:
+                        return r
+                return None
+            if isinstance(cur, ast.BinOp) and isinstance(cur.op, ast.Add):
+                # list concatenation keeps the element objects
+                return None
             if isinstance(cur, ast.NamedExpr):
                 return self.rooted(fi, cur.value, depth - 1)
         return None
